@@ -24,6 +24,15 @@ CHECKS['C13'] = dict(
     note='trusted: TLC, Edit.tla, the rebuild() reference (add_atom/add_bond from the stored fields); seeds carry no stereo marks',
     technique='TLA+ state machine model checked with TLC; TLC behaviours replayed into the code; recorded histories trace-validated',
     design='5/C13')
+CHECKS['C02'] = dict(
+    text='Every molecule (corpus in Kekule and aromatic form, unusual-valence / charged / isotopic / radical / stereo species, ring '
+         'double bonds) is written in every style and several random orders; TLC steps the reference reader over the written text and '
+         'requires elements, isotopes, charges, hydrogens (bracket counts or the SMILES valence rule), radicals (CX block), maps, bond '
+         'orders, tetrahedral parity and double-bond same-side relations to equal the projection of the original in written order, and '
+         'the same for the molecule chython reads back.',
+    note='trusted: TLC, SmilesRead.tla/SmilesValence.tla/Cx.tla, stored-field projection; aromatic texts compared after kekule+thiele of the read-back molecule; allene marks not compared yet',
+    technique='TLA+ reference reader as judge of written texts + TLC trace validation of write/read round trips',
+    design='5/C02')
 PENDING = {}
 
 
